@@ -312,6 +312,16 @@ def cases(tier, seed):
             for b in o3:
                 for c in o3:
                     out.append(mk([a, b, c], False))
+    # two back edges out of ONE node to two DIFFERENT nodes of the current path: n = 2 with a two-edge second node (to the first node and to
+    # itself), and the chain 0 -> 1 -> 2 whose last node points back at 0 and at 1; every by-value member / variant kind on the back edges
+    two = [("struct", k1, k2) for k1 in BYVAL for k2 in BYVAL] + [("enum", k1, k2) for k1 in ("newtype", "sreq", "vtuple") for k2 in ("newtype", "sreq", "vtuple")
+                                                                  if k1 in EKINDS and k2 in EKINDS]
+    for (kind, k1, k2) in two:
+        for first in (("struct", (("req", 1),)), ("enum", (("newtype", 1),))):
+            out.append(mk([first, (kind, ((k1, 0), (k2, 1)))], False))
+            out.append(mk([first, (kind, ((k2, 1), (k1, 0)))], False))
+            out.append(mk([first, ("struct", (("req", 2),)), (kind, ((k1, 0), (k2, 1)))], False))
+            out.append(mk([first, ("struct", (("opt", 2),)), (kind, ((k2, 1), (k1, 0)))], False))
     # the same graphs under other map types, wherever a reference passes through map values (n <= 2; every n in the thorough tier)
     base = list(out)
     for c in base:
